@@ -1,11 +1,15 @@
 mod codec_ops;
 mod ops;
 mod proto;
+mod secrets;
 mod tape;
 mod toy;
 mod wrapped;
 
 use std::io::{BufRead, Write};
+
+#[global_allocator]
+static ALLOC: secrets::Spy = secrets::Spy;
 
 fn main() {
     std::panic::set_hook(Box::new(|_| {}));
